@@ -274,7 +274,8 @@ def run(ck):
     ck.require_reach("reject-BadHashError", "reject-NotEnoughHashesError", "reject-IndexError", "padding-leaf-in-chain",
                      "forged-consistent-subchain", "conflict-with-known-node", "alt-tree-chain",
                      "overlapping-arguments-GF", "overlapping-arguments-FG", "overlapping-arguments-FF", "overlapping-arguments-GG", "leaf-args-conflict",
-                     "forged-subtree-top-withheld", "forged-subtree-top-genuine", "forged-subtree-top-forged")
+                     "forged-subtree-top-withheld", "forged-subtree-top-genuine", "forged-subtree-top-forged",
+                     "reused-aux-dict-retry")
     ck.skip("negative-index-not-wire-encodable")
 
 
@@ -352,6 +353,7 @@ def _run(ck, hashtree, J):
 
     _overlapping_arguments(ck, hashtree, J)
     _forged_subtrees(ck, hashtree, J)
+    _reused_aux_dict(ck, hashtree, J)
 
     # ---- exhaustive part (stated bound first, then the random orders, then the sizes beyond the bound)
     for n in sizes:
@@ -664,6 +666,54 @@ def _forged_subtrees(ck, hashtree, J):
                                         break
 
 
+def _reused_aux_dict(ck, hashtree, J):
+    """Retry with ONE auxiliary dict object: the caller fetches the genuine chain the tree asked for once, tries a forged
+    leaf against it (1..2 times; must be rejected, tree unchanged) and then the genuine leaf with the very same dict
+    object.  Everything the caller supplied in the last call is genuine and is exactly what the tree asked for, so it
+    must be accepted: a rejected input may not survive anywhere (tree or caller-held arguments) and turn a later genuine
+    validation into a rejection."""
+    rng = ck.rng("reused-aux")
+    for n in list(range(1, 9)) + [13, 64]:
+        W = World(hashtree, rng, n)
+        first = W.first
+        preludes = [("root-only", ())]
+        if n > 2:
+            preludes.append(("partial-1", (rng.randrange(n),)))
+        for pname, prelude in preludes:
+            targets = list(range(n)) if n <= 8 else sorted(set([0, 1, n // 2, n - 1, rng.randrange(n)]))
+            for tgt in targets:
+                for attempts in (1, 2):
+                    try:
+                        t = W.fresh(prelude, ck)
+                    except PreludeFailed:
+                        break
+                    leafnode = first + tgt
+                    asked = t.needed_hashes(tgt, include_leaf=False)
+                    aux = dict((i, W.G[i]) for i in asked)          # fetched once, genuine, reused as the same object
+                    aux_keys = sorted(aux)
+                    kw = bool((tgt + attempts) % 2)
+                    info = {"scenario": "auxiliary dict object reused across a rejected forged attempt and a genuine retry",
+                            "tree_state": pname, "validated_before": list(prelude), "target_leaf": tgt,
+                            "forged_attempts": attempts, "asked": sorted(asked), "aux_keys_supplied_by_caller": aux_keys}
+                    ok = True
+                    for a in range(attempts):
+                        forged = W.F[leafnode] if a == 0 else rng.randbytes(32)
+                        v = J.call(W, t, aux, {tgt: forged}, dict(info, step="forged attempt %d" % (a + 1)), hashes_kw=kw)
+                        if v != "rejected":
+                            ok = False
+                            break
+                    if ok:
+                        ck.hit("reused-aux-dict-retry")
+                        leaked = sorted(set(aux) - set(aux_keys))
+                        J.call(W, t, aux, {tgt: W.G[leafnode]},
+                               dict(info, step="genuine retry with the same dict object",
+                                    keys_added_to_callers_dict_by_rejected_call=leaked,
+                                    callers_dict_values_changed=[i for i in aux_keys if aux.get(i) != W.G[i]]),
+                               must_accept="genuine-rejected-after-rejected-forgery", hashes_kw=kw)
+                    ck.case("reused-aux-dict", key=(n, pname, tgt, attempts), nontrivial=True,
+                            sample={"nleaves": n, "state": pname, "target": tgt, "forged_attempts": attempts})
+
+
 def _refresh(W, done):
     try:
         return W.fresh(done)
@@ -799,4 +849,7 @@ def _random_orders(ck, hashtree, J):
 #  caught  leaves=/hashes= conflict check removed, either argument winning (seeded/C35-4: hashes wins, the caller's forged
 #          leaves= value is dropped and the call returns normally)      -> conflicting-leaf-arguments-accepted
 #          (round 1 of this check counted that as dont_care; wrong: a normal return tells the caller its leaf is valid)
+#  caught  set_hashes merges leaves= into the CALLER's hashes dict (no copy; seeded/C35-9): the forged leaf of a rejected
+#          call survives in the caller's auxiliary dict and the genuine retry with the same dict object is refused
+#                                                                          -> genuine-rejected-after-rejected-forgery
 # Tree before 24975d1: out-of-range-index-not-rolled-back (genuine, hashtree.py:477; fixed since).
